@@ -4,7 +4,8 @@
    record of a conditional class; `SkipInstr` is Spec/StepFrame.v.  Statements only (proofs in Proofs/StepProofs.v). *)
 From Coq Require Import ZArith Bool List.
 From ArmV Require Import Lib.PyZ Lib.Monad Lib.Machine Spec.Pseudocode Spec.Arch Spec.MachineView Spec.Branches Spec.StepFrame
-  Proofs.StateLemmas Proofs.CondProofs Proofs.GuardProofs Proofs.StepProofs Proofs.StepExample.
+  Spec.OperandSpec Proofs.StateLemmas Proofs.CondProofs Proofs.GuardProofs Proofs.DPLemmas Proofs.MemProofs Proofs.StepProofs Proofs.StepInstances
+  Proofs.StepFetch Proofs.StepClosed Proofs.StepExample.
 From Gen Require Import enums opsyn core exec conc decoders step.
 Import ListNotations.
 Open Scope Z_scope.
@@ -43,3 +44,14 @@ Example C05_step_cond_fails_example :
   ArmV6_emulate_cycle ex_cfg ex_s = Ok tt (SkipInstr ex_s1 ex_op) /\ pc_of (SkipInstr ex_s1 ex_op) = pc_of ex_s + 4.
 Proof. exact (step_cond_fails_example). Qed.
 Print Assumptions C05_step_cond_fails_example.
+
+(* with every stage discharged: ARM state, flat memory map (PMSA, MPU off), word-aligned PC, an ADD{S}<c> Rd, Rn, #const at the PC
+   whose condition fails — the whole step is SkipInstr and the PC moves on by four *)
+Theorem C05_add_imm_a1_skipped_closed cfg s :
+  flat cfg s -> ictx cfg s -> iset_of s = 0 -> pc_of s mod 4 = 0 ->
+  let w := fetched_arm s in let s1 := after_fetch_arm s in
+  is_add_imm_a1 w -> cond_fails s1 ->
+  let op := (code_AddImmediateArm, [w; bit w 20; bits w 15 12; bits w 19 16; ARMExpandImm (bits w 11 0)]) in
+  ArmV6_emulate_cycle cfg s = Ok tt (SkipInstr s1 op) /\ pc_of (SkipInstr s1 op) = add32 (pc_of s) 4.
+Proof. exact (add_imm_a1_skipped_closed cfg s). Qed.
+Print Assumptions C05_add_imm_a1_skipped_closed.
